@@ -181,9 +181,13 @@ def save_replay(pid, n, fr, viols, module):
     return d
 
 def replay(path):
+    path = os.path.abspath(path)      # TLC runs in the specification directory
     with open(os.path.join(path, "violation.json")) as f:
         info = json.load(f)
     r = T.validate(os.path.join(path, "trace.ndjson"), module=info.get("module", "Script_Trace"))
+    if not r.get("ok", True) and not r["viols"] and r["rejected_at"] is None:
+        print("replay: TLC did not evaluate the trace"); print(r.get("out", "")[-800:])
+        return 2
     mine = [v for v in r["viols"] if v.get("p") == info["property"]]
     for v in mine:
         print("VIOLATION property=%s replay=%s" % (info["property"], path))
